@@ -401,5 +401,9 @@ Proof.
     { intros E. apply N. apply vnorm_zero_iff in E. rewrite vnorm_scale in E by exact Hc.
       apply Rmult_integral in E. destruct E; [lra|assumption]. }
     rewrite !vg_project_formula by assumption. pose proof (vnorm2_pos a Ha) as Hp.
-    destruct a as [x y z], (vsub ROps p ref) as [v1 v2 v3]. vunf_in Hp. vec_eq; field; split; nra.
+    destruct a as [x y z], (vsub ROps p ref) as [v1 v2 v3]. vunf_in Hp.
+    assert (Hq : 0 < c * x * (c * x) + c * y * (c * y) + c * z * (c * z)).
+    { replace (c * x * (c * x) + c * y * (c * y) + c * z * (c * z)) with (c * c * (x * x + y * y + z * z)) by ring.
+      apply Rmult_lt_0_compat; [nra|lra]. }
+    vec_eq; field; repeat split; lra.
 Qed.
